@@ -26,6 +26,7 @@ import Honeycomb.Lemmas.Bfs
 import Honeycomb.Lemmas.WFLink
 import Honeycomb.Lemmas.MapLawful
 import Honeycomb.Model.Val
+import Honeycomb.Props.C01
 
 set_option linter.unusedSimpArgs false
 
@@ -170,6 +171,20 @@ theorem g2_range {m : Map X} (h : WF 3 m) (pol : Policy) (hp : PolOK pol) :
       rw [← e]; exact r i (hp i hi) a ha
 
 /-! ## orbits -/
+
+/-- **C03, the generic BFS lemma** (DESIGN.md A2), restated from `Lemmas/Bfs.lean`: for *any* image
+    generator `gen` that returns `g x` on every dart `x < n` without changing the map, with images
+    `< n` and an inert null dart, `orbitWith n gen d` (the BFS shared by `orbit_transac`,
+    `vertex_id_transac`, `face_id_transac`, with fuel `n + 1`) returns from a non-null start `d < n`:
+    `d` first, no duplicates, never 0, exactly the non-null darts reachable from `d`, all `< n` -/
+theorem C03_generic_bfs {g : Nat → List Nat} {n d : Nat} {gen : Nat → P X (List Nat)} {m : Map X}
+    (hgen : ∀ x, x < n → run (gen x) m = (.ok (g x), m))
+    (h0 : ∀ y, y ∈ g 0 → y = 0) (hr : ∀ a, a < n → ∀ y, y ∈ g a → y < n)
+    (hd0 : d ≠ 0) (hd : d < n) :
+    ∃ out, run (orbitWith n gen d) m = (.ok out, m) ∧
+      out.head? = some d ∧ out.Nodup ∧ 0 ∉ out ∧ (∀ x, x ∈ out ↔ (x ≠ 0 ∧ Reach g d x)) ∧
+      ∀ x, x ∈ out → x < n :=
+  ⟨_, run_orbitWith hgen hr hd0 hd, bfsPure_spec h0 hr hd0 hd⟩
 
 /-- **C03, orbits**: on a well-formed 2-map, for every admissible policy and every non-null existing
     dart `d`, `orbit_transac` succeeds, leaves the map unchanged and yields `d` first, then every
@@ -416,5 +431,274 @@ theorem cellId_idem {m : Map X} (h : WF 3 m) {pol : Policy} (hs : Sym pol) {d : 
   have hlt := (C03_orbit2_spec h hs.ok hd0 hd).2.2.2.2.2 _ spd.1
   refine ⟨h1.1, hlt, ?_⟩
   exact ((C03_same_id_iff_same_cell h hs h1.1 hlt hd0 hd).1.2 (reach_symm h hs hd h1.1 h1.2))
+
+/-! ## iterators -/
+
+/-- every image under an admissible policy is a β-image of an existing dart -/
+theorem g2_image {m : Map X} (h : WF 3 m) {pol : Policy} (hp : PolOK pol) {b x : Nat} (hb : b < m.n)
+    (hx : x ∈ g2 m pol b) : ∃ i e, i < 3 ∧ e < m.n ∧ x = m.β i e := by
+  have r : ∀ i, i < 3 → ∀ y, y < m.n → m.β i y < m.n := fun i hi y hy => h.range i hi y hy
+  cases pol with
+  | vertex =>
+      simp only [g2, List.mem_cons, List.not_mem_nil, or_false] at hx
+      rcases hx with hx | hx
+      · exact ⟨1, _, by omega, r 2 (by omega) b hb, hx⟩
+      · exact ⟨2, _, by omega, r 0 (by omega) b hb, hx⟩
+  | vertexLinear =>
+      simp only [g2, List.mem_singleton] at hx
+      exact ⟨1, _, by omega, r 2 (by omega) b hb, hx⟩
+  | edge => simp only [g2, List.mem_singleton] at hx; exact ⟨2, b, by omega, hb, hx⟩
+  | face =>
+      simp only [g2, List.mem_cons, List.not_mem_nil, or_false] at hx
+      rcases hx with hx | hx
+      · exact ⟨1, b, by omega, hb, hx⟩
+      · exact ⟨0, b, by omega, hb, hx⟩
+  | faceLinear => simp only [g2, List.mem_singleton] at hx; exact ⟨1, b, by omega, hb, hx⟩
+  | volume => exact hp.elim
+  | volumeLinear => exact hp.elim
+  | custom bs =>
+      simp only [g2, List.mem_map] at hx
+      obtain ⟨i, hi, e⟩ := hx
+      exact ⟨i, b, hp i hi, hb, e.symm⟩
+
+/-- the orbit of an in-use dart contains no removed dart (a removed dart is free and nobody's image) -/
+theorem C03_orbit_of_in_use_is_in_use {m : Map X} (h : WF 3 m) {pol : Policy} (hp : PolOK pol) {d : Nat}
+    (hd0 : d ≠ 0) (hd : d < m.n) (hu : m.unused d = false) :
+    ∀ x, x ∈ orb m pol d → m.unused x = false := by
+  intro x hx
+  obtain ⟨hx0, hr⟩ := (mem_orb h hp hd0 hd x).1 hx
+  rcases hr.cases_tail with e | ⟨b, hb, hxb⟩
+  · rw [e]; exact hu
+  · have hbn : b < m.n := hb.lt (g2_range h pol hp) hd
+    obtain ⟨i, e, hi, he, hxe⟩ := g2_image h hp hbn hxb
+    cases hux : m.unused x with
+    | false => rfl
+    | true =>
+        exfalso
+        have := C01.C01_unused_is_nobodys_image h i hi e he (by rw [← hxe]; exact hux)
+        exact hx0 (by rw [hxe]; exact this)
+
+theorem okVal_ok {α : Type} (a dflt : α) (m : Map X) : okVal ((Out.ok a : Out Err α), m) dflt = a := rfl
+
+theorem mem_iterCells (m : Map X) (idf : Nat → P X Nat) (x : Nat) :
+    x ∈ iterCells m idf ↔
+      (x < m.n ∧ x ≠ 0 ∧ m.unused x = false ∧ okVal (run (idf x) m) 0 = x) := by
+  unfold iterCells
+  rw [List.mem_filter, List.mem_range]
+  simp only [decide_eq_true_eq, Bool.not_eq_true', ne_eq]
+
+/-- generic iterator lemma: if `idf` computes the identifier of the (Vertex / Edge / Face) cell, the
+    iterator yields exactly the identifiers of the in-use darts -/
+theorem mem_iterCells_sym {m : Map X} (h : WF 3 m) {pol : Policy} (hs : Sym pol) {idf : Nat → P X Nat}
+    (hid : ∀ d, d ≠ 0 → d < m.n → run (idf d) m = (.ok (cellId m pol d), m)) (x : Nat) :
+    x ∈ iterCells m idf ↔ ∃ d, d ≠ 0 ∧ d < m.n ∧ m.unused d = false ∧ cellId m pol d = x := by
+  rw [mem_iterCells]
+  constructor
+  · rintro ⟨hx, hx0, hu, e⟩
+    rw [hid x hx0 hx, okVal_ok] at e
+    exact ⟨x, hx0, hx, hu, e⟩
+  · rintro ⟨d, hd0, hd, hu, e⟩
+    obtain ⟨k0, klt, kid⟩ := cellId_idem h hs hd0 hd
+    have ku := C03_orbit_of_in_use_is_in_use h hs.ok hd0 hd hu _ (cellId_spec h hs.ok hd0 hd).1
+    rw [e] at k0 klt kid ku
+    refine ⟨klt, k0, ku, ?_⟩
+    rw [hid x k0 klt, okVal_ok]; exact kid
+
+theorem iterCells_sorted (m : Map X) (idf : Nat → P X Nat) :
+    (iterCells m idf).Pairwise (fun a b => a < b) :=
+  List.Pairwise.filter _ List.pairwise_lt_range
+
+/-- **C03, iterators are strictly increasing** (hence duplicate-free) -/
+theorem C03_iter_sorted (m : Map X) :
+    (iterVertices2 m).Pairwise (fun a b => a < b) ∧ (iterEdges2 m).Pairwise (fun a b => a < b) ∧
+    (iterFaces2 m).Pairwise (fun a b => a < b) :=
+  ⟨iterCells_sorted _ _, iterCells_sorted _ _, iterCells_sorted _ _⟩
+
+/-- **C03, `iter_vertices`** yields exactly the vertex identifiers of the in-use darts -/
+theorem C03_iterVertices2_mem {m : Map X} (h : WF 3 m) (x : Nat) :
+    x ∈ iterVertices2 m ↔ ∃ d, d ≠ 0 ∧ d < m.n ∧ m.unused d = false ∧ cellId m .vertex d = x :=
+  mem_iterCells_sym h (pol := .vertex) trivial (fun _ hd0 hd => (C03_vertexId2_min h hd0 hd).1) x
+
+/-- **C03, `iter_edges`** yields exactly the edge identifiers of the in-use darts -/
+theorem C03_iterEdges2_mem {m : Map X} (h : WF 3 m) (x : Nat) :
+    x ∈ iterEdges2 m ↔ ∃ d, d ≠ 0 ∧ d < m.n ∧ m.unused d = false ∧ cellId m .edge d = x :=
+  mem_iterCells_sym h (pol := .edge) trivial (fun _ hd0 hd => (C03_edgeId2_min h hd0 hd).1) x
+
+/-- **C03, `iter_faces`** yields exactly the face identifiers of the in-use darts -/
+theorem C03_iterFaces2_mem {m : Map X} (h : WF 3 m) (x : Nat) :
+    x ∈ iterFaces2 m ↔ ∃ d, d ≠ 0 ∧ d < m.n ∧ m.unused d = false ∧ cellId m .face d = x :=
+  mem_iterCells_sym h (pol := .face) trivial (fun _ hd0 hd => (C03_faceId2_min h hd0 hd).1) x
+
+/-! ## one-directional policies on closed cells -/
+
+/-- **C03, FaceLinear on closed faces**: if no dart of the face of `d` is 1-free, the β1-only orbit
+    has the same darts as the face orbit -/
+theorem C03_faceLinear_closed {m : Map X} (h : WF 3 m) {d : Nat} (hd0 : d ≠ 0) (hd : d < m.n)
+    (hcl : ∀ x, x ∈ orb m .face d → m.β 1 x ≠ 0) (x : Nat) :
+    x ∈ orb m .faceLinear d ↔ x ∈ orb m .face d := by
+  rw [mem_orb h (pol := .faceLinear) trivial hd0 hd, mem_orb h (pol := .face) trivial hd0 hd]
+  constructor
+  · rintro ⟨hx0, hx⟩
+    refine ⟨hx0, ?_⟩
+    exact (linear_reach_iff (f := m.β 1) (f' := m.β 0) (h.null 1 (by omega)) (h.null 0 (by omega))
+      (h.range 1 (by omega)) h.inv01 hd0 hd
+      (fun y hy0 hy => hcl y ((mem_orb h (pol := .face) trivial hd0 hd y).2 ⟨hy0, hy⟩)) x hx0).2 hx
+  · rintro ⟨hx0, hx⟩
+    refine ⟨hx0, ?_⟩
+    exact (linear_reach_iff (f := m.β 1) (f' := m.β 0) (h.null 1 (by omega)) (h.null 0 (by omega))
+      (h.range 1 (by omega)) h.inv01 hd0 hd
+      (fun y hy0 hy => hcl y ((mem_orb h (pol := .face) trivial hd0 hd y).2 ⟨hy0, hy⟩)) x hx0).1 hx
+
+/-- **C03, VertexLinear on closed vertices**: if `β1 ∘ β2` has no null image on the vertex of `d`
+    (the vertex is interior), the one-directional orbit has the same darts as the vertex orbit -/
+theorem C03_vertexLinear_closed {m : Map X} (h : WF 3 m) {d : Nat} (hd0 : d ≠ 0) (hd : d < m.n)
+    (hcl : ∀ x, x ∈ orb m .vertex d → m.β 1 (m.β 2 x) ≠ 0) (x : Nat) :
+    x ∈ orb m .vertexLinear d ↔ x ∈ orb m .vertex d := by
+  have z : ∀ i, i < 3 → m.β i 0 = 0 := h.null
+  have r : ∀ i, i < 3 → ∀ y, y < m.n → m.β i y < m.n := fun i hi y hy => h.range i hi y hy
+  have hinv : ∀ y, y < m.n → m.β 1 (m.β 2 y) ≠ 0 → m.β 2 (m.β 0 (m.β 1 (m.β 2 y))) = y := by
+    intro y hy hne
+    have hz0 : m.β 2 y ≠ 0 := by intro e; rw [e, z 1 (by omega)] at hne; exact hne rfl
+    rw [h.inv01 _ (r 2 (by omega) y hy) hne]
+    exact (h.invol 2 (by omega) (by omega) y hy hz0).1
+  have key := linear_reach_iff (f := fun y => m.β 1 (m.β 2 y)) (f' := fun y => m.β 2 (m.β 0 y))
+    (n := m.n) (d := d)
+    (by show m.β 1 (m.β 2 0) = 0; rw [z 2 (by omega), z 1 (by omega)])
+    (by show m.β 2 (m.β 0 0) = 0; rw [z 0 (by omega), z 2 (by omega)])
+    (fun y hy => r 1 (by omega) _ (r 2 (by omega) y hy)) hinv hd0 hd
+    (fun y hy0 hy => hcl y ((mem_orb h (pol := .vertex) trivial hd0 hd y).2 ⟨hy0, hy⟩))
+  rw [mem_orb h (pol := .vertexLinear) trivial hd0 hd, mem_orb h (pol := .vertex) trivial hd0 hd]
+  constructor
+  · rintro ⟨hx0, hx⟩; exact ⟨hx0, (key x hx0).2 hx⟩
+  · rintro ⟨hx0, hx⟩; exact ⟨hx0, (key x hx0).1 hx⟩
+
+/-! ## transactional variants = plain variants
+
+  In the Rust code `vertex_id(d)` is `atomically(|t| self.vertex_id_transac(t, d))` (same for the other
+  identifiers), and `orbit` re-implements `orbit_transac` on committed values.  In the model both are
+  the same `P X` program: the transactional one is run inside a caller's transaction (`run`), the plain
+  one through `atomically` — by T1 (`T1_atomicallyLog_eq`) also through the transaction log.  The
+  programs are read-only, so all three give the same answer and publish nothing.  (That the Rust
+  `orbit` iterator really computes what `orbit_transac` computes is a fact about the code: it is
+  checked by the correspondence run on `orbit` / `orbitnt` lines.) -/
+
+theorem atomically_readOnly {α : Type} {p : P X α} (hp : ReadOnly p) (m : Map X) :
+    atomically p m = run p m := by
+  have h2 := hp m
+  unfold atomically
+  match hr : run p m with
+  | (.ok a, m') => rfl
+  | (.err e, m') => rw [hr] at h2; simp only at h2; rw [h2]
+  | (.retry, m') => rw [hr] at h2; simp only at h2; rw [h2]
+  | (.panic, m') => rw [hr] at h2; simp only at h2; rw [h2]
+
+/-- **C03, transactional = plain** (model-level content, see the comment above): running an orbit or
+    identifier query as its own transaction — sequentially or through the transaction log — returns
+    exactly what the closure returns inside a transaction, and never changes the map -/
+theorem C03_transactional_eq_plain (m : Map X) (pol : Policy) (d : Nat) :
+    (atomically (orbit2 (X := X) m.n pol d) m = run (orbit2 (X := X) m.n pol d) m ∧
+     atomicallyLog (orbit2 (X := X) m.n pol d) m = run (orbit2 (X := X) m.n pol d) m) ∧
+    (atomically (vertexId2 (X := X) m.n d) m = run (vertexId2 (X := X) m.n d) m ∧
+     atomicallyLog (vertexId2 (X := X) m.n d) m = run (vertexId2 (X := X) m.n d) m) ∧
+    (atomically (edgeId2 (X := X) d) m = run (edgeId2 (X := X) d) m ∧
+     atomicallyLog (edgeId2 (X := X) d) m = run (edgeId2 (X := X) d) m) ∧
+    (atomically (faceId2 (X := X) m.n d) m = run (faceId2 (X := X) m.n d) m ∧
+     atomicallyLog (faceId2 (X := X) m.n d) m = run (faceId2 (X := X) m.n d) m) := by
+  refine ⟨⟨?_, ?_⟩, ⟨?_, ?_⟩, ⟨?_, ?_⟩, ⟨?_, ?_⟩⟩
+  · exact atomically_readOnly (readOnly_orbit2 _ _ _) m
+  · rw [T1_atomicallyLog_eq]; exact atomically_readOnly (readOnly_orbit2 _ _ _) m
+  · exact atomically_readOnly (readOnly_vertexId2 _ _) m
+  · rw [T1_atomicallyLog_eq]; exact atomically_readOnly (readOnly_vertexId2 _ _) m
+  · exact atomically_readOnly (readOnly_edgeId2 _) m
+  · rw [T1_atomicallyLog_eq]; exact atomically_readOnly (readOnly_edgeId2 _) m
+  · exact atomically_readOnly (readOnly_faceId2 _ _) m
+  · rw [T1_atomicallyLog_eq]; exact atomically_readOnly (readOnly_faceId2 _ _) m
+
+/-- … in particular on well-formed maps the plain identifiers are the cell minima, too -/
+theorem C03_plain_ids {m : Map X} (h : WF 3 m) {d : Nat} (hd0 : d ≠ 0) (hd : d < m.n) :
+    atomicallyLog (vertexId2 (X := X) m.n d) m = (.ok (cellId m .vertex d), m) ∧
+    atomicallyLog (edgeId2 (X := X) d) m = (.ok (cellId m .edge d), m) ∧
+    atomicallyLog (faceId2 (X := X) m.n d) m = (.ok (cellId m .face d), m) := by
+  obtain ⟨_, ⟨_, hv⟩, ⟨_, he⟩, ⟨_, hf⟩⟩ := C03_transactional_eq_plain m .vertex d
+  rw [hv, he, hf]
+  exact ⟨(C03_vertexId2_min h hd0 hd).1, (C03_edgeId2_min h hd0 hd).1, (C03_faceId2_min h hd0 hd).1⟩
+
+/-! ## non-vacuity: the hypotheses are satisfiable and the conclusions are not trivial -/
+
+/-- two triangles 1-2-3 and 4-5-6 glued along the edge 2|4; dart 7 free, dart 8 removed -/
+def exM : Map Val :=
+  { C01.exMap with
+    b := #[#[0, 3, 1, 2, 6, 4, 5, 0, 0], #[0, 2, 3, 1, 5, 6, 4, 0, 0], #[0, 0, 4, 0, 2, 0, 0, 0, 0]] }
+
+/-- a sphere made of two 1-gons (β1 loops) glued along their edge: one interior vertex -/
+def exS : Map Val :=
+  { (Map.empty 3 1 3 : Map Val) with b := #[#[0, 1, 2], #[0, 1, 2], #[0, 2, 1]] }
+
+theorem exM_wf : WF 3 exM := by decide
+theorem exS_wf : WF 3 exS := by decide
+
+-- orbits: the start first, inverse images found (5 reaches 2 only through β2∘β0), open cells handled
+example : run (orbit2 exM.n .vertex 5) exM = (.ok (orb exM .vertex 5), exM) :=
+  (C03_orbit2_spec exM_wf (pol := .vertex) trivial (by decide) (by decide)).1
+example : orb exM .vertex 5 = [5, 2] := by decide +kernel
+example : orb exM .vertex 1 = [1] := by decide +kernel
+example : orb exM .edge 4 = [4, 2] := by decide +kernel
+example : orb exM .face 5 = [5, 6, 4] := by decide +kernel
+example : orb exM .faceLinear 5 = [5, 6, 4] := by decide +kernel
+example : orb exM .vertexLinear 2 = [2, 5] := by decide +kernel
+example : orb exM .vertexLinear 5 = [5] := by decide +kernel
+example : orb exM (.custom [1, 2]) 1 = [1, 2, 3, 4, 5, 6] := by decide +kernel
+example : orb exM (.custom []) 3 = [3] := by decide +kernel
+example : PolOK (.custom [2, 1]) := by decide
+example : run (orbit2 exM.n (.custom [2, 1]) 1) exM = (.ok (orb exM (.custom [2, 1]) 1), exM) :=
+  (C03_orbit2_spec exM_wf (pol := .custom [2, 1]) (by decide) (by decide) (by decide)).1
+example : run (orbit2 exM.n (.custom [3]) 1) exM = (.panic, exM) :=
+  C03_orbit2_custom_bad_panics exM_wf ⟨3, by decide, by decide⟩ (by decide)
+
+-- the orbit is the cell; reachability is symmetric
+example : SameCell (g2 exM .vertex) exM.n 5 2 :=
+  (C03_orbit2_is_cell exM_wf (pol := .vertex) trivial (by decide) (by decide) 2).1 (by decide +kernel)
+example : InvClosed (g2 exM .face) exM.n := C03_images_inverse_closed exM_wf (pol := .face) trivial
+
+-- identifiers
+example : cellId exM .vertex 5 = 2 := by decide +kernel
+example : cellId exM .edge 4 = 2 := by decide +kernel
+example : cellId exM .face 6 = 4 := by decide +kernel
+example : run (vertexId2 exM.n 5) exM = (.ok (cellId exM .vertex 5), exM) :=
+  (C03_vertexId2_min exM_wf (by decide) (by decide)).1
+example : run (edgeId2 4) exM = (.ok (cellId exM .edge 4), exM) :=
+  (C03_edgeId2_min exM_wf (by decide) (by decide)).1
+example : run (faceId2 exM.n 6) exM = (.ok (cellId exM .face 6), exM) :=
+  (C03_faceId2_min exM_wf (by decide) (by decide)).1
+example : Reach (g2 exM .vertex) 5 2 :=
+  (C03_same_id_iff_same_cell exM_wf (pol := .vertex) trivial (by decide) (by decide) (by decide)
+    (by decide)).1.1 (by decide +kernel)
+example : ¬ Reach (g2 exM .vertex) 5 3 := fun hr =>
+  absurd ((C03_same_id_iff_same_cell exM_wf (pol := .vertex) trivial (by decide) (by decide) (by decide)
+    (by decide)).1.2 hr) (by decide +kernel)
+
+-- iterators (dart 8 is removed, dart 7 is a free in-use dart)
+example : iterVertices2 exM = [1, 2, 3, 6, 7] := by decide +kernel
+example : iterEdges2 exM = [1, 2, 3, 5, 6, 7] := by decide +kernel
+example : iterFaces2 exM = [1, 4, 7] := by decide +kernel
+example : ∃ d, d ≠ 0 ∧ d < exM.n ∧ exM.unused d = false ∧ cellId exM .vertex d = 2 :=
+  (C03_iterVertices2_mem exM_wf 2).1 (by decide +kernel)
+example : 4 ∈ iterFaces2 exM :=
+  (C03_iterFaces2_mem exM_wf 4).2 ⟨6, by decide, by decide, by decide, by decide +kernel⟩
+example : ∀ x, x ∈ orb exM .face 7 → exM.unused x = false :=
+  C03_orbit_of_in_use_is_in_use exM_wf (pol := .face) trivial (by decide) (by decide) (by decide)
+
+-- linear policies on closed cells (the triangles are closed faces; `exS` has an interior vertex);
+-- the boundary vertex {2, 5} of `exM` shows that the closedness hypothesis cannot be dropped
+example : ∀ x, x ∈ orb exM .faceLinear 5 ↔ x ∈ orb exM .face 5 :=
+  C03_faceLinear_closed exM_wf (by decide) (by decide) (by decide +kernel)
+example : ∀ x, x ∈ orb exS .vertexLinear 1 ↔ x ∈ orb exS .vertex 1 :=
+  C03_vertexLinear_closed exS_wf (by decide) (by decide) (by decide +kernel)
+example : orb exS .vertex 1 = [1, 2] := by decide +kernel
+example : 2 ∈ orb exM .vertex 5 ∧ 2 ∉ orb exM .vertexLinear 5 := by decide +kernel
+
+-- transactional = plain
+example : atomicallyLog (vertexId2 exM.n 5) exM = (.ok (cellId exM .vertex 5), exM) :=
+  (C03_plain_ids exM_wf (by decide) (by decide)).1
 
 end HC.C03
